@@ -27,6 +27,12 @@ CLAIMED["C12"] = dict(
     note=TB_COMMON + "IEEE time arithmetic is assumed to satisfy a<b -> 0<b-a; Cython autowrap is replaced by lambdify in quick runs; the exactness of the propagators themselves is C01.",
     ref="DESIGN.md 4 C12")
 
+CLAIMED["C03"] = dict(
+    technique="Lean 4 worklist-invariant proof (termination, soundness, closure, greatest fixed point, permutation invariance) for all dependency graphs; traced-stage correspondence with the real analysis",
+    text="Proof: for every system size and every dependency graph the worklist terminates within n+1 pops (propagate_terminates), only demotes (propagate_below / analytic_sound), ends dependency-closed (propagate_closed / analytic_closed), is the greatest closed subset of the eligible variables (propagate_greatest), is invariant under re-ordering the entries (verdict_perm_invariant), and analytic ++ numeric is an exact cover (partition_exact_cover). Tie: the three verdict stages and the symbol lists handed to get_sub_system, observed by wrapping the real methods, are compared with the model on every generated system; independent differential-criterion oracle on the returned solvers.",
+    note=TB_COMMON + "The per-shape linear-constant-coefficient judgement is an input of the graph model (its soundness is the split model of C02/C04); SciPy's strong components are compared with the model's own closure on every case.",
+    ref="DESIGN.md 4 C03")
+
 NOT_YET = {}
 
 def main():
